@@ -116,8 +116,8 @@ reg(
     "and pymoca's tree must evaluate to the reference value of the source tree on a 16-point grid (ties included). "
     "The run measures how many trees are grouping-sensitive (a rotation of the unparenthesised text changes the value). "
     "Number / string / Boolean literal spellings are compared by value and Python type.",
-    "Value-based (not shape-based) comparison on a finite grid; only valid Modelica is generated; string escapes are "
-    "outside the alphabet; a parser regenerated from Modelica.g4 is deliberately not a subject (a grammar edit that "
+    "Value-based (not shape-based) comparison on a finite grid; only valid Modelica is generated; a string literal with "
+    "escape sequences may keep its raw text (pymoca's convention) or have the escapes resolved, nothing else; a parser regenerated from Modelica.g4 is deliberately not a subject (a grammar edit that "
     "is not regenerated does not change behaviour).",
 )
 
